@@ -85,11 +85,16 @@ def parse_split(s):
 
 
 def run_impl_split(datasets, reflists):
+    """-> (result, arguments intact after the call)"""
+    given_d, given_r = [d.copy() for d in datasets], [list(r) for r in reflists]
     try:
-        Y = gen.pre_multisetup([d.copy() for d in datasets], [list(r) for r in reflists])
-        return ("ok", [(np.array(s["ref"]), np.array(s["mov"])) for s in Y])
+        Y = gen.pre_multisetup(given_d, given_r)
+        out = ("ok", [(np.array(s["ref"]), np.array(s["mov"])) for s in Y])
     except Exception as e:  # noqa: BLE001 - the kind is part of what is compared
-        return (type(e).__name__,)
+        out = (type(e).__name__,)
+    intact = (len(given_d) == len(datasets) and all(same_array(a, b) for a, b in zip(given_d, datasets))
+              and given_r == [list(r) for r in reflists])
+    return out, intact
 
 
 def check_split_case(ctx, case, datasets, reflists, impl, model):
@@ -186,7 +191,9 @@ def part_split(ctx, corpus):
     exprs = [split_expr(ds, rl) for _, ds, rl in cases]
     res = ctx.coq_eval(HEADER, exprs, shard=40)
     for (case, ds, rl), s in zip(cases, res):
-        impl = run_impl_split(ds, rl)
+        impl, intact = run_impl_split(ds, rl)
+        if not intact:
+            ctx.fail("oracle", "pre_multisetup changes the datasets / reference lists it is given", case, key="C03:pre_multisetup:mutates-input")
         model = parse_split(s)
         nontrivial = all(d.shape[1] >= 2 for d in ds) and model[0] == "ok"
         ctx.count(case, nontrivial=nontrivial)
@@ -216,7 +223,7 @@ def part_class_data(ctx):
         ns = int(rng.integers(2, 4))
         nref = int(rng.integers(1, 3))
         fs = 64.0
-        ndat = 96
+        ndat = 256  # three decimations by 2 still leave more samples than the padding of scipy.signal.filtfilt (27)
         ds, rl = [], []
         for s in range(ns):
             n = nref + int(rng.integers(1, 4))
@@ -319,11 +326,14 @@ def system_matrices(spec):
     return A, C, Cre + 1j * Cim  # global shapes (eigenvector (1, i) of each rotation block)
 
 
-def build_case(spec):
+def build_case(spec, method=None):
     """datasets (samples x channels), reference positions, global truth.  Global sensor order: references, then each
-    setup's roving sensors in setup order, inside a setup in ascending channel order."""
+    setup's roving sensors in setup order, inside a setup in ascending channel order.
+    spec["weak"] = {setup, mode, exp: {method: e}}: in that (later) setup the initial condition of that mode is 10^-e times
+    smaller - every mode is still excited, with strongly unequal modal participation."""
     A, C, Phi = system_matrices(spec)
     m, nref, nmovs, N = spec["m"], spec["nref"], spec["nmovs"], spec["N"]
+    weak = spec.get("weak")
     datasets, off = [], nref
     for k, nm in enumerate(nmovs):
         r = nref + nm
@@ -337,6 +347,8 @@ def build_case(spec):
         off += nm
         X = np.zeros((2 * m, N))
         x = np.array(spec["x0"][k], float)
+        if weak and method is not None and weak["setup"] == k:
+            x[2 * weak["mode"]:2 * weak["mode"] + 2] *= 10.0 ** (-weak["exp"][method])
         for t in range(N):
             X[:, t] = x
             x = A @ x
@@ -344,8 +356,65 @@ def build_case(spec):
     return datasets, A, C, Phi
 
 
-def gen_spec(rng, mmax, k):
-    m = int(rng.integers(1, mmax + 1))
+def split_all(datasets, spec):
+    Y = []
+    for d, p in zip(datasets, spec["pos"]):
+        ref, mov = oracle_split(d, p)
+        Y.append({"ref": ref, "mov": mov})
+    return Y
+
+
+def hankel_stats(Y, br, n, nref, method):
+    """per setup: (S_1 / S_n of the harness's own Hankel matrix, s_min / s_max of the reference rows of its observability basis)."""
+    out = []
+    for s in Y:
+        H = own_hankel(np.vstack((s["ref"], s["mov"])), s["ref"], br, method)
+        U, S, _ = np.linalg.svd(H)
+        W = U[:, :n] * np.sqrt(S[:n])
+        r = s["ref"].shape[0] + s["mov"].shape[0]
+        sv = np.linalg.svd(W[[b * r + j for b in range(br) for j in range(nref)]], compute_uv=False)
+        out.append((S[0] / S[n - 1], sv[-1] / sv[0]))
+    return out
+
+
+EPS = 2.220446049250313e-16
+TOL_CAP = 2e-2  # beyond this the data do not determine the weak mode well enough in double precision: not judged
+
+
+def case_tol(spec, Y, br, method):
+    """tolerance of the truth oracle, scaled to conditioning: the subspace of a Hankel matrix with singular-value spread kappa is
+    known to ~eps kappa (measured on the unchanged code: error <= 100 eps kappa over 800 weak-participation identifications)."""
+    if not spec.get("weak"):
+        return TOL_E2E
+    kap = max(k for k, _ in hankel_stats(Y, br, 2 * spec["m"], spec["nref"], method))
+    return max(TOL_E2E, 1000 * EPS * kap)
+
+
+def add_weak(rng, spec, j):
+    """one mode of a later setup 10^-e weaker.  cov_mm: e is searched so that the reference block of that setup's observability
+    basis has a prescribed singular-value ratio (two of three cases 4e-6..8e-6 - the weakest the moment matrix still resolves to
+    1e-2 -, otherwise 1e-5..1e-3); dat: e uniform in [3, 7]."""
+    m, nref, br = spec["m"], spec["nref"], spec["br"]
+    kk = int(rng.integers(1, len(spec["nmovs"])))
+    mode = int(rng.integers(0, m))
+    target = 10.0 ** (rng.uniform(-5.4, -5.1) if j % 3 != 2 else rng.uniform(-5.0, -3.0))
+    spec = dict(spec, weak=dict(setup=kk, mode=mode, exp={"cov_mm": 2.0, "dat": float(np.round(rng.uniform(3.0, 7.0), 2))}))
+    e = 2.0
+    while e < 6.5:
+        trial = dict(spec, weak=dict(spec["weak"], exp=dict(spec["weak"]["exp"], cov_mm=e)))
+        Y = split_all(build_case(trial, "cov_mm")[0], trial)
+        kap, ratio = hankel_stats(Y[kk:kk + 1], br, 2 * m, nref, "cov_mm")[0]
+        if 1000 * EPS * kap > 0.5 * TOL_CAP:
+            break
+        spec = trial
+        if ratio <= target:
+            break
+        e += 0.125
+    return spec
+
+
+def gen_spec(rng, mmax, k, mmin=1):
+    m = int(rng.integers(mmin, mmax + 1))
     while True:
         nset = int(rng.integers(2, 5))
         nref = int(rng.integers(1, 4))
@@ -405,29 +474,9 @@ def own_hankel(Y, Yref, br, method):
     return Rf[r * q:, :r * q]
 
 
-def ssi_checks(ctx, spec, method, coq_jobs):
-    """(ii): ssi.SSI_multi_setup on the oracle split; returns nothing, records failures."""
-    datasets, A, C, Phi = build_case(spec)
-    m, nref, nmovs, br, fs = spec["m"], spec["nref"], spec["nmovs"], spec["br"], spec["fs"]
-    n = 2 * m
-    nD = nref + sum(nmovs)
-    case = dict(spec, method=method)
-    Y = []
-    for d, p in zip(datasets, spec["pos"]):
-        ref, mov = oracle_split(d, p)
-        Y.append({"ref": ref, "mov": mov})
-    try:
-        Obs, Al, Cl = ssi.SSI_multi_setup(Y, fs, br, n, method)
-    except Exception as e:  # noqa: BLE001
-        ctx.fail("oracle", "SSI_multi_setup raises %s on noise-free records within the property's quantifier" % type(e).__name__, case,
-                 key="C03:SSI_multi_setup:raises")
-        return
-    Obs, Ah, Ch = np.asarray(Obs), np.asarray(Al[-1]), np.asarray(Cl[-1])
-    # ---- oracle: the property text on the returned realisation (poles and shapes at order 2m)
-    if Ah.shape != (n, n) or Ch.shape != (nD, n):
-        ctx.fail("oracle", "SSI_multi_setup: A, C at order 2m have shapes %s, %s (expected %s, %s)" % (Ah.shape, Ch.shape, (n, n), (nD, n)), case,
-                 key="C03:SSI_multi_setup:shape")
-        return
+def modal_oracle(Ah, Ch, spec, Phi, tol):
+    """the property text on a realisation (A, C) at order 2m: None, or the description of the first mode that is not the global one."""
+    m, fs = spec["m"], spec["fs"]
     lam, V = np.linalg.eig(Ah)
     lc = np.log(lam.astype(complex)) * fs
     fn_hat, xi_hat = np.abs(lc) / (2 * np.pi), -lc.real / np.abs(lc)
@@ -437,11 +486,75 @@ def ssi_checks(ctx, spec, method, coq_jobs):
         efn = abs(fn_hat[j] - spec["fn"][i]) / spec["fn"][i]
         exi = abs(xi_hat[j] - spec["xi"][i]) / spec["xi"][i]
         mc = mac(shapes[:, j], Phi[:, i])
-        if not (efn <= TOL_E2E and exi <= TOL_E2E and mc >= 1 - TOL_E2E):
-            ctx.fail("oracle", "SSI_multi_setup(%s): mode %d of the returned (A, C) at order 2m is not the global mode "
-                     "(fn err %.2e, xi err %.2e, 1-MAC %.2e over references + roving sensors in setup order)" % (method, i, efn, exi, 1 - mc),
-                     case, key="C03:SSI_multi_setup:modes")
-            break
+        if not (efn <= tol and exi <= tol and mc >= 1 - tol):
+            return "mode %d: fn %.6g -> %.6g (err %.2e), xi %.6g -> %.6g (err %.2e), 1-MAC %.2e, tolerance %.1e" % (
+                i, spec["fn"][i], fn_hat[j], efn, spec["xi"][i], xi_hat[j], exi, 1 - mc, tol)
+    return None
+
+
+def snapshot(Y):
+    return [{k: np.array(v, copy=True) for k, v in s.items()} for s in Y]
+
+
+def same_split(Y, Y0):
+    return len(Y) == len(Y0) and all(same_array(s["ref"], t["ref"]) and same_array(s["mov"], t["mov"]) for s, t in zip(Y, Y0))
+
+
+def ssi_checks(ctx, spec, method, coq_jobs):
+    """(ii): ssi.SSI_multi_setup on the oracle split; returns nothing, records failures."""
+    datasets, A, C, Phi = build_case(spec, method)
+    m, nref, nmovs, br, fs = spec["m"], spec["nref"], spec["nmovs"], spec["br"], spec["fs"]
+    n = 2 * m
+    nD = nref + sum(nmovs)
+    case = dict(spec, method=method)
+    weak = bool(spec.get("weak"))
+    Y = split_all(datasets, spec)
+    Y0 = snapshot(Y)
+    tol = case_tol(spec, Y0, br, method)
+    try:
+        Obs, Al, Cl = ssi.SSI_multi_setup(Y, fs, br, n, method)
+    except Exception as e:  # noqa: BLE001
+        ctx.fail("oracle", "SSI_multi_setup raises %s on noise-free records within the property's quantifier" % type(e).__name__, case,
+                 key="C03:SSI_multi_setup:raises")
+        return
+    Obs, Ah, Ch = np.asarray(Obs), np.asarray(Al[-1]), np.asarray(Cl[-1])
+    # ---- oracle: the samples handed in are intact after the call
+    if not same_split(Y, Y0):
+        ctx.fail("oracle", "SSI_multi_setup(%s) changes the reference/roving records it is given (samples not intact after the call)" % method,
+                 case, key="C03:SSI_multi_setup:mutates-input")
+    # ---- oracle: the property text on the returned realisation (poles and shapes at order 2m)
+    if Ah.shape != (n, n) or Ch.shape != (nD, n):
+        ctx.fail("oracle", "SSI_multi_setup: A, C at order 2m have shapes %s, %s (expected %s, %s)" % (Ah.shape, Ch.shape, (n, n), (nD, n)), case,
+                 key="C03:SSI_multi_setup:shape")
+        return
+    if tol > TOL_CAP:
+        ctx.not_judged += 1
+    else:
+        bad = modal_oracle(Ah, Ch, spec, Phi, tol)
+        if bad:
+            ctx.fail("oracle", "SSI_multi_setup(%s): the returned (A, C) at order 2m is not the global system over references + roving sensors "
+                     "in setup order: %s" % (method, bad), case, key="C03:SSI_multi_setup:modes")
+    # ---- oracle: a second identification on the SAME split records (one more block row; the other method unless the
+    #      participation is method specific) meets the truth as well
+    m2 = method if weak else ("dat" if method == "cov_mm" else "cov_mm")
+    case2 = dict(case, repeat=dict(br=br + 1, method=m2))
+    tol2 = case_tol(spec, Y0, br + 1, m2)
+    try:
+        Y1 = snapshot(Y)
+        _, Al2, Cl2 = ssi.SSI_multi_setup(Y, fs, br + 1, n, m2)
+        if not same_split(Y, Y1):
+            ctx.fail("oracle", "SSI_multi_setup(%s) changes the reference/roving records it is given (second call)" % m2, case2,
+                     key="C03:SSI_multi_setup:mutates-input")
+        if tol2 > TOL_CAP:
+            ctx.not_judged += 1
+        else:
+            bad = modal_oracle(np.asarray(Al2[-1]), np.asarray(Cl2[-1]), spec, Phi, tol2)
+            if bad:
+                ctx.fail("oracle", "SSI_multi_setup(%s, br+1) called after SSI_multi_setup(%s) on the same records does not return the global system: %s"
+                         % (m2, method, bad), case2, key="C03:SSI_multi_setup:modes-repeat")
+    except Exception as e:  # noqa: BLE001
+        ctx.fail("oracle", "second SSI_multi_setup call on the same records raises %s" % type(e).__name__, case2, key="C03:SSI_multi_setup:raises")
+    tolb = max(TOL, tol) if weak else TOL
     # ---- (b) against the truth the theorem predicts: T from the reference rows only, every row = O_global T
     if Obs.shape != (br * nD, n):
         ctx.fail("correspondence", "Obs_all has shape %s, the model says %s" % (Obs.shape, (br * nD, n)), case, key="C03:SSI_multi_setup:obs-shape")
@@ -450,17 +563,19 @@ def ssi_checks(ctx, spec, method, coq_jobs):
     refrows = np.array([b * nD + j for b in range(br) for j in range(nref)])
     T = np.linalg.lstsq(Og[refrows], Obs[refrows], rcond=None)[0]
     sc = np.abs(Obs).max()
-    if np.abs(Og @ T - Obs).max() > TOL * sc:
+    if tolb > TOL_CAP:
+        return
+    if np.abs(Og @ T - Obs).max() > tolb * sc:
         rowerr = np.abs(Og @ T - Obs).max(axis=1)
         ctx.fail("correspondence", "Obs_all is not O_global T_0 with T_0 solved from the reference rows (theorem C03_identifies_global_partial); "
                  "worst row %d (block %d, position %d)" % (int(rowerr.argmax()), int(rowerr.argmax()) // nD, int(rowerr.argmax()) % nD),
                  case, key="C03:SSI_multi_setup:truth-obs")
-    elif np.abs(T @ Ah - A @ T).max() > TOL * max(1.0, np.abs(T).max()) * 10 or np.abs(Ch - C @ T).max() > TOL * sc:
+    elif np.abs(T @ Ah - A @ T).max() > tolb * max(1.0, np.abs(T).max()) * 10 or np.abs(Ch - C @ T).max() > tolb * sc:
         ctx.fail("correspondence", "A_hat, C_hat are not T_0^-1 A T_0, C_global T_0", case, key="C03:SSI_multi_setup:truth-AC")
     # ---- (a) model on witnesses (own Hankel + own SVD), evaluated exactly (integers) in Coq
-    if coq_jobs is not None:
+    if coq_jobs is not None and not weak:
         wit = []
-        for s in Y:
+        for s in Y0:
             H = own_hankel(np.vstack((s["ref"], s["mov"])), s["ref"], br, method)
             U, S, _ = np.linalg.svd(H)
             W = U[:, :n] * np.sqrt(S[:n])
@@ -527,37 +642,98 @@ def compare_with_model(ctx, outs, mks, case, Obs, Ah, Ch):
         ctx.fail("correspondence", "C at order 2m is not the first block row of the model's Obs_all", case, key="C03:SSI_multi_setup:model-C")
 
 
-def e2e_check(ctx, spec, method):
-    """(iii): MultiSetup_PreGER + SSIcov_MS/SSIdat_MS + run + mpe(order=2m) against the generator's truth."""
-    datasets, A, C, Phi = build_case(spec)
+HC_LOOSE = dict(conj=True, xi_max=0.5, mpc_lim=0.0, mpd_lim=10.0, cov_max=1e9)  # hard criteria loosened: true poles must not be wiped
+
+
+def e2e_object(ctx, spec, methods, order_k):
+    """(iii): ONE MultiSetup_PreGER object, several identifications on the same split data: the listed _MS algorithms through
+    add_algorithms/run_all/mpe, then one more algorithm with another number of block rows, then the first algorithm run again.
+    Every result must meet the generator's truth, and the inputs, .data and .datasets stay bit-equal throughout."""
+    method0 = methods[0] if spec.get("weak") else None
+    datasets, A, C, Phi = build_case(spec, method0)
     m, br = spec["m"], spec["br"]
-    case = dict(spec, method=method, kind="e2e")
-    hc = dict(conj=True, xi_max=0.5, mpc_lim=0.0, mpd_lim=10.0, cov_max=1e9)  # hard criteria loosened: true poles must not be wiped
-    try:
-        ms = MultiSetup_PreGER(fs=spec["fs"], ref_ind=[list(p) for p in spec["pos"]], datasets=[d.copy() for d in datasets])
-        kw = dict(name="a", br=br, ordmax=2 * m, ordmin=0, step=1, hc=hc)
-        alg = SSIcov_MS(method="cov_mm", **kw) if method == "cov_mm" else SSIdat_MS(**kw)
-        ms.add_algorithms(alg)
-        ms.run_all()
-        ms.mpe("a", sel_freq=[float(f) for f in spec["fn"]], order=2 * m)
+    case = dict(spec, kind="e2e", methods=methods)
+    cls_of = {"cov_mm": "SSIcov_MS", "dat": "SSIdat_MS"}
+    Y0 = split_all(datasets, spec)
+    given = [d.copy() for d in datasets]
+
+    def make(name, method, brr):
+        kw = dict(name=name, br=brr, ordmax=2 * m, ordmin=0, step=1, hc=HC_LOOSE)
+        return SSIcov_MS(method="cov_mm", **kw) if method == "cov_mm" else SSIdat_MS(**kw)
+
+    def intact(ms, step):
+        ok = True
+        if not all(same_array(g, d) for g, d in zip(given, datasets)):
+            ctx.fail("oracle", "the datasets handed to MultiSetup_PreGER are changed after %s (samples not intact)" % step, dict(case, step=step),
+                     key="C03:e2e:mutates-input")
+            ok = False
+        if len(ms.datasets) != len(datasets) or not all(same_array(np.asarray(g), d) for g, d in zip(ms.datasets, datasets)):
+            ctx.fail("oracle", "MultiSetup_PreGER.datasets changed after %s (samples not intact)" % step, dict(case, step=step),
+                     key="C03:e2e:mutates-datasets")
+            ok = False
+        if not same_split(ms.data, Y0):
+            ctx.fail("oracle", "MultiSetup_PreGER.data is no longer the reference/roving split of the records after %s (samples not intact)" % step,
+                     dict(case, step=step), key="C03:e2e:mutates-data")
+            ok = False
+        return ok
+
+    def judge(alg, name, method, brr, what):
         r = alg.result
         Fn, Xi, Ph = np.asarray(r.Fn), np.asarray(r.Xi), np.asarray(r.Phi)
-    except Exception as e:  # noqa: BLE001
-        ctx.fail("oracle", "MultiSetup_PreGER + %s + mpe(order=2m) raises %s on noise-free records" % ("SSIcov_MS" if method == "cov_mm" else "SSIdat_MS", type(e).__name__),
-                 case, key="C03:e2e:raises")
-        return
-    if Fn.shape != (m,) or Xi.shape != (m,) or Ph.shape != (Phi.shape[0], m):
-        ctx.fail("oracle", "result.Fn/Xi/Phi have shapes %s %s %s for %d modes and %d sensors" % (Fn.shape, Xi.shape, Ph.shape, m, Phi.shape[0]), case,
-                 key="C03:e2e:shape")
-        return
-    for i in range(m):
-        efn = abs(Fn[i] - spec["fn"][i]) / spec["fn"][i]
-        exi = abs(Xi[i] - spec["xi"][i]) / spec["xi"][i]
-        mc = mac(Ph[:, i], Phi[:, i])
-        if not (efn <= TOL_E2E and exi <= TOL_E2E and mc >= 1 - TOL_E2E):
-            ctx.fail("oracle", "%s: mode %d: fn err %.2e, xi err %.2e, 1-MAC %.2e against the global system (gains 2^%s)"
-                     % ("SSIcov_MS" if method == "cov_mm" else "SSIdat_MS", i, efn, exi, 1 - mc, spec["gexp"]), case, key="C03:e2e:modes")
+        if Fn.shape != (m,) or Xi.shape != (m,) or Ph.shape != (Phi.shape[0], m):
+            ctx.fail("oracle", "%s: result.Fn/Xi/Phi have shapes %s %s %s for %d modes and %d sensors" % (what, Fn.shape, Xi.shape, Ph.shape, m, Phi.shape[0]),
+                     dict(case, step=what), key="C03:e2e:shape")
             return
+        tol = case_tol(spec, Y0, brr, method)
+        if tol > TOL_CAP:
+            ctx.not_judged += 1
+            return
+        for i in range(m):
+            efn = abs(Fn[i] - spec["fn"][i]) / spec["fn"][i]
+            exi = abs(Xi[i] - spec["xi"][i]) / spec["xi"][i]
+            mc = mac(Ph[:, i], Phi[:, i])
+            if not (efn <= tol and exi <= tol and mc >= 1 - tol):
+                ctx.fail("oracle", "%s: mode %d: fn %.6g -> %.6g (err %.2e), xi %.6g -> %.6g (err %.2e), 1-MAC %.2e against the global system "
+                         "(gains 2^%s, tolerance %.1e)" % (what, i, spec["fn"][i], Fn[i], efn, spec["xi"][i], Xi[i], exi, 1 - mc, spec["gexp"], tol),
+                         dict(case, step=what), key="C03:e2e:modes" if what.startswith("first") else "C03:e2e:modes-repeat")
+                return
+
+    step = "construction"
+    try:
+        ms = MultiSetup_PreGER(fs=spec["fs"], ref_ind=[list(p) for p in spec["pos"]], datasets=datasets)
+        intact(ms, step)
+        names = ["a", "b"][:len(methods)]
+        algs = {nm: make(nm, me, br) for nm, me in zip(names, methods)}
+        step = "add_algorithms"
+        ms.add_algorithms(*[algs[nm] for nm in (names if order_k % 2 == 0 else names[::-1])])
+        intact(ms, step)
+        step = "run_all"
+        ms.run_all()
+        intact(ms, step)
+        first = (names if order_k % 2 == 0 else names[::-1])[0]
+        for nm, me in zip(names, methods):
+            step = "mpe(%s)" % cls_of[me]
+            ms.mpe(nm, sel_freq=[float(f) for f in spec["fn"]], order=2 * m)
+            intact(ms, step)
+            judge(algs[nm], nm, me, br, "%s identification on the object: %s, br=%d" % ("first" if nm == first else "second", cls_of[me], br))
+        # another identification on the same object and the same split data: one more block row
+        me3 = methods[-1] if order_k % 2 == 0 else methods[0]
+        step = "run_by_name(%s, br+1)" % cls_of[me3]
+        c = make("c", me3, br + 1)
+        ms.add_algorithms(c)
+        ms.run_by_name("c")
+        ms.mpe("c", sel_freq=[float(f) for f in spec["fn"]], order=2 * m)
+        intact(ms, step)
+        judge(c, "c", me3, br + 1, "later identification on the same object: %s, br=%d" % (cls_of[me3], br + 1))
+        # and the first algorithm once more
+        step = "re-run(%s)" % cls_of[methods[0]]
+        ms.run_by_name("a")
+        ms.mpe("a", sel_freq=[float(f) for f in spec["fn"]], order=2 * m)
+        intact(ms, step)
+        judge(algs["a"], "a", methods[0], br, "re-run on the same object: %s, br=%d" % (cls_of[methods[0]], br))
+    except Exception as e:  # noqa: BLE001
+        ctx.fail("oracle", "MultiSetup_PreGER + %s: %s raises %s on noise-free records" % ("/".join(cls_of[x] for x in methods), step, type(e).__name__),
+                 dict(case, step=step), key="C03:e2e:raises")
 
 
 def load_corpus():
@@ -572,7 +748,9 @@ def load_corpus():
 def run(ctx):
     ctx.extra["rule"] = ("split: every ordered reference subset of every channel count (exhaustive) + malformed lists + multi-setup calls, "
                          "non-trivial = valid list on >= 2 channels; SSI: one global system (modes, shapes, x0, gains 2^k, reference positions) "
-                         "per case, both methods, non-trivial = always (>= 2 setups, gains differ); distinct by hash of the full spec")
+                         "per case, both methods, every case identified repeatedly on the same split data / the same object (inputs must stay bit-equal), "
+                         "one case in four with one mode 10^-2..10^-6 weaker in a later setup (tolerance 1000 eps kappa(H), not judged above 2e-2); "
+                         "non-trivial = always (>= 2 setups, gains differ); distinct by hash of the full spec")
     ctx.assumptions += [
         "oracle contracts (hypotheses of C03_identifies_global_partial): np.linalg.svd per setup delivers Obs_k = O_k T_k with T_k right-invertible "
         "(single-setup realisation step, property C01); np.linalg.pinv returns a left inverse of a full-column-rank reference block; "
@@ -594,21 +772,37 @@ def run(ctx):
     for s in specs:
         ctx.hist("ssi_stream", "corpus")
     nssi = ctx.n(20, 120)
+    nweak = 0
     for k in range(nssi):
-        specs.append(gen_spec(rng, mmax, k))
-        ctx.hist("ssi_stream", "generated")
+        if k % 4 == 2:  # strongly unequal modal participation in a later setup
+            sp = gen_spec(rng, max(mmax, 2), k, mmin=2)
+            specs.append(add_weak(rng, sp, nweak))
+            nweak += 1
+            ctx.hist("ssi_stream", "generated-weak-participation")
+        else:
+            specs.append(gen_spec(rng, mmax, k))
+            ctx.hist("ssi_stream", "generated")
     coq_jobs = []
     ncoq = ctx.n(14, 60)
     for k, spec in enumerate(specs):
         spec = {kk: v for kk, v in spec.items() if kk not in ("corpus", "comment")}
+        weak = spec.get("weak")
         ctx.hist("ssi_shape", "m=%d nset=%d nref=%d" % (spec["m"], len(spec["nmovs"]), spec["nref"]))
         ctx.hist("ssi_br", spec["br"])
+        if weak:
+            ctx.hist("weak_exp_cov_mm", round(weak["exp"]["cov_mm"] * 2) / 2)
         for method in ("cov_mm", "dat"):
             ctx.count(dict(spec, method=method, part="ssi"))
+            ctx.count(dict(spec, method=method, part="ssi-repeat"))
             small = spec["m"] <= 4 and spec["br"] * (spec["nref"] + sum(spec["nmovs"])) * 2 * spec["m"] <= 1000  # exact evaluation cost ~ n^4
             ssi_checks(ctx, spec, method, coq_jobs if (len(coq_jobs) < ncoq and small and (k + (method == "dat")) % 2 == 0) else None)
-            ctx.count(dict(spec, method=method, part="e2e"))
-            e2e_check(ctx, spec, method)
+        if weak:  # the participation is method specific: one object per method
+            for method in ("cov_mm", "dat"):
+                ctx.count(dict(spec, methods=[method], part="e2e"))
+                e2e_object(ctx, spec, [method], k)
+        else:
+            ctx.count(dict(spec, methods=["cov_mm", "dat"], part="e2e"))
+            e2e_object(ctx, spec, ["cov_mm", "dat"], k)
     ctx.sample({kk: v for kk, v in specs[-1].items() if kk not in ("Cre", "Cim", "x0")})
     flat = [e for j in coq_jobs for e in j[0]]
     res = ctx.coq_eval(HEADER, flat, shard=1)
